@@ -5,14 +5,20 @@
    signed / accepted commitment must contain and when each message may be released. *)
 EXTENDS Chan, Json, IOUtils
 
-VARIABLES l, nodeOf   \* position in the trace;  [chan -> <<node of side 1, node of side 2>>]
+VARIABLES l, nodeOf,  \* position in the trace;  [chan -> <<node of side 1, node of side 2>>]
+          saved,      \* [<<node, k>> -> Snapshot]  abstract state at each ChannelManager snapshot
+          everRAA,    \* [endpoint -> number of revocations ever released]  (survives restarts)
+          projB       \* last projection logged per node (for the reload round trip)
 
 Rec == ndJsonDeserialize(IOEnv.TRACE)
-tvars == <<cvars, l, nodeOf>>
+tvars == <<cvars, l, nodeOf, saved, everRAA, projB>>
 
 R == Rec[l]
 IsEvent(e) == l <= Len(Rec) /\ Rec[l].ev = e /\ l' = l + 1
-Stutter == UNCHANGED <<cvars, nodeOf>>
+Aux == <<nodeOf, saved, everRAA, projB>>
+Stutter == UNCHANGED <<cvars, Aux>>
+Closed(e) == link[e] = "closed"
+EPsOf(n) == {e \in DOMAIN link : nodeOf[e[1]][e[2]] = n}
 
 Side(c, n) == IF nodeOf[c][1] = n THEN 1 ELSE 2
 EP(c, n) == <<c, Side(c, n)>>
@@ -26,7 +32,7 @@ Content(c) == [num |-> c.num, feerate |-> c.feerate, to_b |-> c.to_b, to_c |-> c
 NoDup(c) == Cardinality(ToSet(c.nondust)) = Len(c.nondust) /\ Cardinality(ToSet(c.dust)) = Len(c.dust)
 
 TraceInit ==
-  /\ l = 1 /\ nodeOf = <<>>
+  /\ l = 1 /\ nodeOf = <<>> /\ saved = <<>> /\ everRAA = <<>> /\ projB = <<>>
   /\ par = <<>> /\ cnt = <<>> /\ hs = <<>> /\ fees = <<>> /\ feeBase = <<>> /\ base = <<>>
   /\ link = <<>> /\ redo = <<>> /\ lastCS = <<>> /\ order = <<>> /\ pts = <<>> /\ mon = <<>>
   /\ ownExp = <<>>
@@ -55,16 +61,21 @@ TOpen ==
         /\ mon' = [e \in E |-> [last |-> IF e[2] = 1 THEN cs[ch(e[1])].mon_id_a ELSE cs[ch(e[1])].mon_id_b,
                                  infl |-> {}, cp |-> <<>>, holder |-> <<>>, pre |-> <<>>]]
         /\ ownExp' = [e \in E |-> <<>>]
+        /\ everRAA' = [e \in E |-> 0]
+        /\ saved' = <<>> /\ projB' = <<>>
 
 \* not part of the commitment protocol; `warning` / `disconnect_peer` ask the transport to drop the
 \* peer (the harness then disconnects, as PeerManager would) -- an `error` is never acceptable
 Ignored == {"channel_ready", "announcement_signatures", "channel_update", "warning", "disconnect_peer"}
 
 \* ---- a message leaves node R.from
+Harmless == Ignored \cup {"error", "channel_reestablish"}
 TMsg ==
   /\ IsEvent("msg")
-  /\ UNCHANGED nodeOf
+  /\ UNCHANGED <<nodeOf, saved, projB>>
   /\ LET k == R.kind  e == EP(R.chan, R.from) IN
+     IF R.chan = 0 THEN UNCHANGED cvars ELSE
+     IF Closed(e) THEN G10(k \in Harmless) /\ UNCHANGED cvars ELSE    \* a closed channel is never resumed
      CASE k = "update_add_htlc" -> SendAdd(e, R.id, R.amt, R.hash)
        [] k = "update_fulfill_htlc" -> SendRemove(e, R.id, "fulfill") /\ MayReleaseFulfil(e, R.hash)
        [] k \in {"update_fail_htlc", "update_fail_malformed_htlc"} -> SendRemove(e, R.id, "fail")
@@ -77,12 +88,20 @@ TMsg ==
        [] k = "channel_reestablish" -> SendReestablish(e, R.next_local, R.next_remote)
        [] k \in Ignored -> UNCHANGED cvars
        [] OTHER -> G1(FALSE) /\ UNCHANGED cvars   \* error: never on an honest run
+  /\ everRAA' = IF R.chan # 0 /\ R.kind = "revoke_and_ack" /\ ~Closed(EP(R.chan, R.from))
+                 THEN [everRAA EXCEPT ![EP(R.chan, R.from)] = IF cnt'[EP(R.chan, R.from)].sentRAA > @ THEN cnt'[EP(R.chan, R.from)].sentRAA ELSE @]
+                 ELSE everRAA
 
 \* ---- a message is handed to node R.to
 TDeliver ==
   /\ IsEvent("deliver")
-  /\ UNCHANGED nodeOf
+  /\ UNCHANGED Aux
   /\ LET k == R.kind  e == EP(R.chan, R.to) IN
+     IF R.chan = 0 \/ Closed(e) THEN UNCHANGED cvars ELSE
+     IF k = "error" \/ (k = "channel_reestablish" /\ Closed(Peer(e))) THEN
+          \* the peer closed (only a closed endpoint sends an error or a bogus reestablish): we close too
+          /\ link' = [link EXCEPT ![e] = "closed"]
+          /\ Unch(<<par, cnt, hs, fees, feeBase, base, redo, lastCS, order, pts, mon, ownExp>>) ELSE
      CASE k = "update_add_htlc" -> RecvAdd(e, R.id, R.amt, R.hash)
        [] k = "update_fulfill_htlc" -> RecvRemove(e, R.id, "fulfill")
        [] k \in {"update_fail_htlc", "update_fail_malformed_htlc"} -> RecvRemove(e, R.id, "fail")
@@ -95,10 +114,12 @@ TDeliver ==
 
 \* ---- a ChannelMonitorUpdate (or a full re-persist) reaches Persist
 StepsOf(kind) == {k \in 1..Len(R.steps) : R.steps[k].k = kind}
+RtOK == R.rt.monitor /\ R.rt.update /\ R.rt.truncated_refused /\ R.rt.commute
 TPersist ==
   /\ IsEvent("persist")
-  /\ UNCHANGED nodeOf
-  /\ IF ~R.has_update THEN UNCHANGED cvars
+  /\ UNCHANGED Aux
+  /\ G12(RtOK)
+  /\ IF ~R.has_update \/ Closed(EP(R.chan, R.node)) \/ R.kind = "load" THEN UNCHANGED cvars
      ELSE LET e == EP(R.chan, R.node)
               cpN == {R.steps[k].c.num : k \in StepsOf("counterparty_commitment")}
               hoN == {R.steps[k].c.num : k \in StepsOf("holder_commitment")}
@@ -113,7 +134,8 @@ TPersist ==
              /\ \A k \in StepsOf("commitment_secret") : G5(R.steps[k].idx = cnt[e].recvRAA - 1)
              /\ \A k \in StepsOf("force_closed") : G1(FALSE)
 
-TComplete == IsEvent("complete") /\ UNCHANGED nodeOf /\ Complete(EP(R.chan, R.node), R.id)
+TComplete == /\ IsEvent("complete") /\ UNCHANGED Aux
+             /\ IF Closed(EP(R.chan, R.node)) THEN UNCHANGED cvars ELSE Complete(EP(R.chan, R.node), R.id)
 
 \* ---- the user asks to send: the reported limits are exact (C01)
 TSend ==
@@ -123,25 +145,68 @@ TSend ==
                     /\ (R.first_amt > R.limit \/ R.first_amt < R.min) => R.result = "err")
 
 ChanBetween(a, b) == CHOOSE c \in DOMAIN nodeOf : {nodeOf[c][1], nodeOf[c][2]} = {a, b}
+Both(a, b) == {<<ChanBetween(a, b), 1>>, <<ChanBetween(a, b), 2>>}
 TDisconnect ==
-  /\ IsEvent("disconnect") /\ UNCHANGED nodeOf
-  /\ Disconnect({<<ChanBetween(R.a, R.b), 1>>, <<ChanBetween(R.a, R.b), 2>>})
+  /\ IsEvent("disconnect") /\ UNCHANGED Aux
+  /\ Disconnect({e \in Both(R.a, R.b) : ~Closed(e)})
 TReconnect ==
-  /\ IsEvent("reconnect") /\ UNCHANGED nodeOf
-  /\ Reconnect({<<ChanBetween(R.a, R.b), 1>>, <<ChanBetween(R.a, R.b), 2>>})
+  /\ IsEvent("reconnect") /\ UNCHANGED Aux
+  /\ Reconnect({e \in Both(R.a, R.b) : ~Closed(e)})
+
+\* ---- ChannelManager snapshots, crashes and restarts (C10, C12)
+TMgrSnap ==
+  /\ IsEvent("mgr_snap")
+  /\ saved' = [k \in DOMAIN saved \cup {<<R.node, R.k>>} |->
+                 IF k = <<R.node, R.k>> THEN Snapshot(EPsOf(R.node)) ELSE saved[k]]
+  /\ UNCHANGED <<cvars, nodeOf, everRAA, projB>>
+
+MonIds == [e \in EPsOf(R.node) |->
+             LET ks == {k \in 1..Len(R.mons) : R.mons[k].chan = e[1]} IN
+             IF ks = {} THEN 0 ELSE R.mons[CHOOSE k \in ks : TRUE].id]
+PeersOf(n) == {Peer(e) : e \in EPsOf(n)}
+TCrash ==
+  /\ IsEvent("crash")
+  /\ UNCHANGED Aux
+  /\ IF <<R.node, R.mgr>> \in DOMAIN saved
+     THEN Restart(EPsOf(R.node), PeersOf(R.node), saved[<<R.node, R.mgr>>], MonIds)
+     ELSE \* the snapshot taken right after channel open (k = 0): nothing had happened yet
+          Restart(EPsOf(R.node), PeersOf(R.node),
+                  [Snapshot(EPsOf(R.node)) EXCEPT !.cnt = [e \in EPsOf(R.node) |-> [sentCS |-> 0, recvCS |-> 0, sentRAA |-> 0, recvRAA |-> 0]],
+                                                   !.hs = [e \in EPsOf(R.node) |-> {}],
+                                                   !.mon = [e \in EPsOf(R.node) |-> [mon[e] EXCEPT !.last = 0]]], MonIds)
+  \* a clean reload (latest manager, every monitor write landed) must never close a channel (C12)
+  /\ R.reload => G12(\A e \in EPsOf(R.node) : link[e] # "closed" => link'[e] # "closed")
+
+TBroadcast ==
+  /\ IsEvent("broadcast") /\ Stutter
+  /\ R.c_num >= 0 =>
+       LET o == EP(R.chan, R.node) IN
+       /\ G1(Closed(o))                      \* never on a live channel
+       /\ G5(R.c_num >= everRAA[o])          \* never a commitment whose secret was released
 
 \* ---- events: a closed channel has no place on an honest off-chain run
 TEvent ==
   /\ IsEvent("event") /\ Stutter
-  /\ G1(R.kind # "ChannelClosed")
+  /\ R.kind = "ChannelClosed" => G1(Closed(EP(R.chan, R.node)))
   /\ R.kind = "PaymentSent" => R.preimage_ok
 
+TProj ==
+  /\ IsEvent("proj")
+  /\ UNCHANGED <<cvars, nodeOf, saved, everRAA>>
+  /\ projB' = [n \in DOMAIN projB \cup {<<R.node, R.chan>>} |-> IF n = <<R.node, R.chan>> THEN R ELSE projB[n]]
+  \* at the end of a wound-down run nothing is left pending on an open channel
+  /\ (R.final /\ ~Closed(EP(R.chan, R.node))) => G1(R.n_in = 0 /\ R.n_out = 0 /\ hs[EP(R.chan, R.node)] = {})
+  \* the projection after a reload equals the one taken before it
+  /\ (R.after_reload /\ <<R.node, R.chan>> \in DOMAIN projB) =>
+        LET b == projB[<<R.node, R.chan>>] IN
+        G12(b.out_cap = R.out_cap /\ b.in_cap = R.in_cap /\ b.n_in = R.n_in /\ b.n_out = R.n_out /\ b.ready = R.ready)
+
 TOther ==
-  /\ l <= Len(Rec) /\ Rec[l].ev \in {"forward", "claim", "fail", "fee", "tick", "block", "proj", "persist_mode"}
+  /\ l <= Len(Rec) /\ Rec[l].ev \in {"forward", "claim", "fail", "fee", "tick", "block", "persist_mode", "restarted"}
   /\ l' = l + 1 /\ Stutter
 
 TraceNext == TOpen \/ TMsg \/ TDeliver \/ TPersist \/ TComplete \/ TSend \/ TDisconnect \/ TReconnect
-             \/ TEvent \/ TOther
+             \/ TEvent \/ TOther \/ TMgrSnap \/ TCrash \/ TBroadcast \/ TProj
 
 TraceSpec == TraceInit /\ [][TraceNext]_tvars
 
